@@ -20,6 +20,17 @@ class HarnessError(Exception):
     pass
 
 
+class BaselineBroken(Exception):
+    """An honest scenario that always works on a correct tree failed.  No
+    property about what endpoints do can hold then; reported as a violation
+    (never happens on the unchanged tree)."""
+
+    def __init__(self, what, detail=""):
+        Exception.__init__(self, what)
+        self.what = what
+        self.detail = detail
+
+
 class R(object):
     """Verdict of one case."""
     __slots__ = ("ok", "nt", "sig", "detail", "labels", "key", "incon")
@@ -86,6 +97,8 @@ def run_check(mod, case):
     """check(case) with uncaught-exception classification."""
     try:
         r = mod.check(case)
+    except BaselineBroken as e:
+        return bad("honest-baseline-fails:" + e.what, e.detail)
     except HarnessError:
         raise
     except (KeyboardInterrupt, SystemExit, MemoryError):
@@ -183,13 +196,18 @@ def _worker_inner(prop, tier, seed, shard, nshards):
     max_wall = getattr(mod, "MAX_WALL", {"quick": 240, "thorough": 3000})[tier]
     # 1. explicit / enumerated cases
     if hasattr(mod, "explicit"):
-        for i, case in enumerate(mod.explicit(tier, seed)):
-            if i % nshards != shard:
-                continue
-            if time.time() - t0 > max_wall:
-                acc.skipped += 1
-                continue
-            acc.add(case, run_check(mod, case), ["explicit", i])
+        try:
+            for i, case in enumerate(mod.explicit(tier, seed)):
+                if i % nshards != shard:
+                    continue
+                if time.time() - t0 > max_wall:
+                    acc.skipped += 1
+                    continue
+                acc.add(case, run_check(mod, case), ["explicit", i])
+        except BaselineBroken as e:
+            acc.add({"baseline": e.what},
+                    bad("honest-baseline-fails:" + e.what, e.detail),
+                    ["explicit", -1])
     # 2. generated cases
     strat = mod.strategy(tier) if hasattr(mod, "strategy") else None
     if strat is not None:
